@@ -49,7 +49,8 @@ CLAIMS = {
             "sibling helpers; propositional exhaustiveness of the end-point case split of segment x polyhedron; the Point-in-polygon / "
             "Point-in-polyhedron predicates that clip every hit reject only beyond a tolerance margin that depends on the live get_eps() "
             "(touching and boundary hits are not lost to float noise), and so do numeric comparisons that lead straight to `return None` in the handlers and helpers "
-            "(whether such a numeric pre-filter is geometrically right is NOT decided). NOT decided: coordinates, the "
+            "(whether such a numeric pre-filter is geometrically right is NOT decided); the hits are merged only through the tolerant Point equality / hash -- no dictionary, "
+            "duplicate filter or count keyed by raw coordinate tuples (R2.6). NOT decided: coordinates, the "
             "longest-segment selection, hash-merging of coincident hits, tangency classification."
         ),
         note=NOTE_COMMON + "A4 as for C01.",
@@ -59,7 +60,7 @@ CLAIMS = {
         ref="DESIGN.md 3.1, 3 (C03)",
         text=(
             "Decides structural necessary conditions of C03: confinement of every return site of the three body x body "
-            "handlers; swap closure of the candidate collection (vertices of a in b and of b in a; edge "
+            "handlers; no identity map / duplicate filter keyed by raw coordinates in the intersection code (R3.5); swap closure of the candidate collection (vertices of a in b and of b in a; edge "
             "crossings; faces of each polyhedron clipped by the other -- as candidate-origin families of the result; "
             "every result return -- in particular `return None` -- lies behind all of these candidate families); result selection ordered by dimension and the cardinality ladders 0/1/2 points -> None/Point/Segment. NOT "
             "decided: that the collected vertex set is the true one, Euler reassembly, hash deduplication, measures."
@@ -169,8 +170,9 @@ CLAIMS = {
         ref="DESIGN.md 3 (C10)",
         text=(
             "Decides the structural clauses of C10: distance() has a branch for each of the 8 documented ordered pairs, the "
-            "four swapped orders forward to distance(b, a) (one computation for both orders, no unbounded recursion), the "
-            "else raises; every returned value is non-negative (sign domain); the method forms forward (self, other); and "
+            "four swapped orders forward to distance(b, a) or exchange the operands in front of one shared dispatch (one computation for both orders, no unbounded recursion), the "
+            "else raises; every returned value -- of distance() and of the module helpers whose value it returns -- is non-negative (sign domain); no branch of distance() or "
+            "its helpers decides on the exact value (truthiness, == c, != c) of a coordinate-derived float (R10.6); the method forms forward (self, other); and "
             "no normalised cross product of direction vectors is taken without a guard that excludes parallel AND "
             "anti-parallel operands on every path (R-CROSS), so that parallel lines cannot raise; every computed value is of degree 0 "
             "and even in each Line's direction vector (two representations of one line give one distance). NOT decided: that the "
@@ -253,7 +255,9 @@ CLAIMS = {
             "arguments, attributes, globals), every rounding precision derives from get_sig_figures(), no comparison "
             "uses a private float literal below 1e-3 or an approximate-comparison helper (math.isclose / allclose) whose built-in relative tolerance is left on, and both setters declare and assign both globals on every path "
             "with the stated relation at the defaults and at one further setting (constant folding of the setters' own "
-            "expressions; whole package incl. visualization). NOT decided: the numeric clauses (eps/1000 compares and "
+            "expressions; whole package incl. visualization); no branch outside utils/solver.py decides on the exact value (truthiness, == c, != c) of a "
+            "coordinate-derived float (R19.5; two tabled constructor validations) and no set / dictionary / membership test identifies points by raw coordinate "
+            "tuples instead of the tolerant __eq__ / __hash__ (R19.6). NOT decided: the numeric clauses (eps/1000 compares and "
             "hashes equal, 4*eps compares unequal)."
         ),
         note=NOTE_COMMON + "An imported name is bound to the value at import time (Python scoping), a call is a live read.",
